@@ -38,6 +38,99 @@ fn char_substring(rng: &mut Rng, s: &str) -> String {
     chars[a..b].iter().collect()
 }
 
+
+/// record lookups by id, record iteration, gene_by_name and the OMIM name searches of one ontology
+/// against the records it must hold (`tag` names the way the ontology was obtained)
+#[allow(clippy::too_many_lines)]
+fn record_checks(ont: &Ontology, recs: &[Vec<RecFact>; 3], tag: &str, rng: &mut Rng, out: &mut CaseOut) {
+        // ---- record lookups by id
+        let rec_ids: [BTreeMap<u32, &str>; 3] = [
+            recs[0].iter().map(|r| (r.id, r.name.as_str())).collect(),
+            recs[1].iter().map(|r| (r.id, r.name.as_str())).collect(),
+            recs[2].iter().map(|r| (r.id, r.name.as_str())).collect(),
+        ];
+        let mut probe: BTreeSet<u32> = (0..20).collect();
+        for k in 0..3 {
+            probe.extend(rec_ids[k].keys().copied());
+        }
+        probe.extend([u32::MAX, u32::MAX - 1, ID_SPACE]);
+        for id in &probe {
+            bump_n(&mut out.events, "Ontology::gene/omim_disease/orpha_disease", 3);
+            let g = ont.gene(&GeneId::from(*id)).map(|g| (g.id().as_u32(), g.name().to_string()));
+            let o = ont.omim_disease(&OmimDiseaseId::from(*id)).map(|g| (g.id().as_u32(), g.name().to_string()));
+            let p = ont.orpha_disease(&OrphaDiseaseId::from(*id)).map(|g| (g.id().as_u32(), g.name().to_string()));
+            for (k, got) in [g, o, p].into_iter().enumerate() {
+                let exp = rec_ids[k].get(id).map(|n| (*id, (*n).to_string()));
+                out.check(got == exp, "C10", &format!("record_lookup/{}{tag}", crate::facts::KIND_NAMES[k]), || {
+                    format!("lookup kind {k} id {id} = {got:?}, expected {exp:?}")
+                });
+            }
+        }
+        for k in 0..3 {
+            let listed: BTreeSet<u32> = match k {
+                0 => ont.genes().map(|g| g.id().as_u32()).collect(),
+                1 => ont.omim_diseases().map(|g| g.id().as_u32()).collect(),
+                _ => ont.orpha_diseases().map(|g| g.id().as_u32()).collect(),
+            };
+            let exp: BTreeSet<u32> = rec_ids[k].keys().copied().collect();
+            out.check(listed == exp, "C10", &format!("record_iteration/{}{tag}", crate::facts::KIND_NAMES[k]), || {
+                format!("kind {k}: iterated {listed:?}, expected {exp:?}")
+            });
+        }
+
+        // ---- gene_by_name
+        let mut sym_queries: Vec<String> = recs[0].iter().map(|r| r.name.clone()).collect();
+        sym_queries.extend(["".to_string(), "GENE".to_string(), "gene1".to_string(), "DUP".to_string(), "DUP1 ".to_string(), "ΓENE".to_string()]);
+        for q in &sym_queries {
+            bump(&mut out.events, "Ontology::gene_by_name");
+            out.bucket("name_queries");
+            let got = ont.gene_by_name(q).map(|g| (g.id().as_u32(), g.name().to_string()));
+            let exists = recs[0].iter().any(|r| &r.name == q);
+            match got {
+                Some((id, name)) => {
+                    out.check(&name == q && rec_ids[0].get(&id) == Some(&q.as_str()), "C10", &format!("gene_by_name_wrong{tag}"), || {
+                        format!("gene_by_name({q:?}) returned gene {id} '{name}'")
+                    });
+                }
+                None => out.check(!exists, "C10", &format!("gene_by_name_misses{tag}"), || format!("gene_by_name({q:?}) = None although a gene has that symbol")),
+            }
+        }
+
+        // ---- omim_diseases_by_name / omim_disease_by_name
+        let mut queries: Vec<String> = vec!["".into(), "syndrome".into(), "Syndrome".into(), "SYNDROME".into(), "type 1".into(), "type 11".into(), "é".into(), "zzz-absent".into(), " ".into(), "e 1".into()];
+        for r in &recs[1] {
+            queries.push(char_substring(rng, &r.name));
+            queries.push(r.name.clone());
+            queries.push(format!("{}x", r.name));
+        }
+        for r in &recs[2] {
+            // names of ORPHA diseases must not match in the OMIM search unless an OMIM name contains them
+            queries.push(r.name.clone());
+        }
+        for q in &queries {
+            bump(&mut out.events, "Ontology::omim_diseases_by_name");
+            bump(&mut out.events, "Ontology::omim_disease_by_name");
+            out.bucket("name_queries");
+            let exp: BTreeSet<u32> = recs[1].iter().filter(|r| contains_naive(&r.name, q)).map(|r| r.id).collect();
+            let got_v: Vec<u32> = ont.omim_diseases_by_name(q).map(|d| d.id().as_u32()).collect();
+            let got: BTreeSet<u32> = got_v.iter().copied().collect();
+            out.check(got_v.len() == got.len(), "C10", &format!("disease_search_duplicates{tag}"), || format!("omim_diseases_by_name({q:?}) yields duplicates: {got_v:?}"));
+            out.check(got == exp, "C10", &format!("disease_search_set{tag}"), || {
+                format!("omim_diseases_by_name({q:?}) = {got:?}, diseases whose name contains the query = {exp:?}")
+            });
+            let one = ont.omim_disease_by_name(q).map(|d| d.id().as_u32());
+            out.check(
+                match one {
+                    Some(id) => exp.contains(&id),
+                    None => exp.is_empty(),
+                },
+                "C10",
+                &format!("disease_search_first{tag}"),
+                || format!("omim_disease_by_name({q:?}) = {one:?}, matching set = {exp:?}"),
+            );
+        }
+}
+
 impl Monitor for C10 {
     fn id(&self) -> &'static str {
         "C10"
@@ -62,7 +155,7 @@ impl Monitor for C10 {
         v
     }
     fn mandatory_buckets(&self, _tier: Tier) -> Vec<String> {
-        ["full_key_sweeps", "more_than_65536_terms", "binary_round_trip_swept", "obo_loader_swept", "binary_decoder_with_flags", "alternating_lookups", "id_0_present", "id_9999999_present", "add_beyond_id_space_attempted", "name_queries"]
+        ["full_key_sweeps", "more_than_65536_terms", "binary_round_trip_swept", "obo_loader_swept", "binary_decoder_with_flags", "alternating_lookups", "clone_swept", "id_0_present", "id_9999999_present", "add_beyond_id_space_attempted", "name_queries"]
             .iter()
             .map(|s| (*s).to_string())
             .collect()
@@ -333,7 +426,10 @@ impl Monitor for C10 {
                 }
                 jf.terms.push(TermFact { id: *id, name, obsolete: false, replaced_by: None });
             }
+            // the records that the text formats can express (those with at least one term)
+            jf.recs = f.recs.clone();
             crate::monitors::common::jaxable(&mut jf);
+            let jrecs = crate::jax::jax_view(&jf).recs;
             let jnames: BTreeMap<u32, String> = jf.terms.iter().map(|t| (t.id, t.name.clone())).collect();
             let o = crate::jax::JaxOpts { shuffle: true, noise: rng.chance(1, 2), gene_header_style: rng.below(3) as u8 };
             let transitive = rng.chance(1, 2);
@@ -375,6 +471,7 @@ impl Monitor for C10 {
                         }
                         Err(p) => out.violate("C10", "panic:hpo_sweep_obo", format!("{} at {}", p.message, p.location)),
                     }
+                    record_checks(&jo, &jrecs, "/text_files", &mut rng, &mut out);
                 }
                 Err(e) => out.violate("C10", "obo_load_failed", format!("{e}")),
             }
@@ -492,91 +589,63 @@ impl Monitor for C10 {
         });
         out.check(ont.is_empty() == added.is_empty(), "C10", "is_empty", || "is_empty disagrees".to_string());
 
-        // ---- record lookups by id
-        let rec_ids: [BTreeMap<u32, &str>; 3] = [
-            f.recs[0].iter().map(|r| (r.id, r.name.as_str())).collect(),
-            f.recs[1].iter().map(|r| (r.id, r.name.as_str())).collect(),
-            f.recs[2].iter().map(|r| (r.id, r.name.as_str())).collect(),
-        ];
-        let mut probe: BTreeSet<u32> = (0..20).collect();
-        for k in 0..3 {
-            probe.extend(rec_ids[k].keys().copied());
+        record_checks(&ont, &f.recs, "", &mut rng, &mut out);
+        if let Some(rt) = &reloaded {
+            // the binary round trip keeps every record, also those without terms
+            record_checks(rt, &f.recs, "/round_trip", &mut rng, &mut out);
         }
-        probe.extend([u32::MAX, u32::MAX - 1, ID_SPACE]);
-        for id in &probe {
-            bump_n(&mut out.events, "Ontology::gene/omim_disease/orpha_disease", 3);
-            let g = ont.gene(&GeneId::from(*id)).map(|g| (g.id().as_u32(), g.name().to_string()));
-            let o = ont.omim_disease(&OmimDiseaseId::from(*id)).map(|g| (g.id().as_u32(), g.name().to_string()));
-            let p = ont.orpha_disease(&OrphaDiseaseId::from(*id)).map(|g| (g.id().as_u32(), g.name().to_string()));
-            for (k, got) in [g, o, p].into_iter().enumerate() {
-                let exp = rec_ids[k].get(id).map(|n| (*id, (*n).to_string()));
-                out.check(got == exp, "C10", &format!("record_lookup/{}", crate::facts::KIND_NAMES[k]), || {
-                    format!("lookup kind {k} id {id} = {got:?}, expected {exp:?}")
-                });
-            }
-        }
-        for k in 0..3 {
-            let listed: BTreeSet<u32> = match k {
-                0 => ont.genes().map(|g| g.id().as_u32()).collect(),
-                1 => ont.omim_diseases().map(|g| g.id().as_u32()).collect(),
-                _ => ont.orpha_diseases().map(|g| g.id().as_u32()).collect(),
-            };
-            let exp: BTreeSet<u32> = rec_ids[k].keys().copied().collect();
-            out.check(listed == exp, "C10", &format!("record_iteration/{}", crate::facts::KIND_NAMES[k]), || {
-                format!("kind {k}: iterated {listed:?}, expected {exp:?}")
-            });
-        }
-
-        // ---- gene_by_name
-        let mut sym_queries: Vec<String> = f.recs[0].iter().map(|r| r.name.clone()).collect();
-        sym_queries.extend(["".to_string(), "GENE".to_string(), "gene1".to_string(), "DUP".to_string(), "DUP1 ".to_string(), "ΓENE".to_string()]);
-        for q in &sym_queries {
-            bump(&mut out.events, "Ontology::gene_by_name");
-            out.bucket("name_queries");
-            let got = ont.gene_by_name(q).map(|g| (g.id().as_u32(), g.name().to_string()));
-            let exists = f.recs[0].iter().any(|r| &r.name == q);
-            match got {
-                Some((id, name)) => {
-                    out.check(&name == q && rec_ids[0].get(&id) == Some(&q.as_str()), "C10", "gene_by_name_wrong", || {
-                        format!("gene_by_name({q:?}) returned gene {id} '{name}'")
+        // ---- a clone of the ontology answers every lookup like the original
+        {
+            bump(&mut out.events, "Ontology::clone");
+            match guard(|| ont.clone()) {
+                Ok(cl) => {
+                    out.bucket("clone_swept");
+                    let r = guard(|| {
+                        let mut bad: Vec<String> = Vec::new();
+                        for id in 0..=ID_SPACE {
+                            let got = cl.hpo(id);
+                            let exp = added.contains(&id);
+                            match got {
+                                Some(t) => {
+                                    if (!exp || t.id().as_u32() != id || t.name() != names[&id]) && bad.len() < 5 {
+                                        bad.push(format!("clone: hpo({id}) returned term {} '{}' (added: {exp})", t.id().as_u32(), t.name()));
+                                    }
+                                }
+                                None => {
+                                    if exp && bad.len() < 5 {
+                                        bad.push(format!("clone: hpo({id}) is None although the term was added"));
+                                    }
+                                }
+                            }
+                        }
+                        let it: Vec<u32> = cl.iter().map(|t| t.id().as_u32()).collect();
+                        let its: BTreeSet<u32> = it.iter().copied().collect();
+                        if its != added || cl.len() != added.len() || it.len() != added.len() {
+                            bad.push(format!("clone: iteration yields {} terms ({} distinct), len() = {}, added {}", it.len(), its.len(), cl.len(), added.len()));
+                        }
+                        bad
                     });
+                    bump_n(&mut out.events, "Ontology::hpo", u64::from(ID_SPACE) + 1);
+                    out.bucket("full_key_sweeps");
+                    match r {
+                        Ok(bad) => {
+                            out.comparisons += u64::from(ID_SPACE) + 1;
+                            for b in bad {
+                                out.violate("C10", "lookup_on_clone", b);
+                            }
+                        }
+                        Err(p) => out.violate("C10", "panic:hpo_sweep_clone", format!("{} at {}", p.message, p.location)),
+                    }
+                    record_checks(&cl, &f.recs, "/clone", &mut rng, &mut out);
+                    // and the original is not disturbed by having been cloned
+                    for id in added.iter().take(50).chain([0u32, 1, 2].iter()) {
+                        let got = ont.hpo(*id).map(|t| t.name().to_string());
+                        let exp = added.contains(id).then(|| names[id].clone());
+                        out.check(got == exp, "C10", "lookup_on_original_after_clone", || format!("hpo({id}) = {got:?} after cloning, expected {exp:?}"));
+                    }
                 }
-                None => out.check(!exists, "C10", "gene_by_name_misses", || format!("gene_by_name({q:?}) = None although a gene has that symbol")),
+                Err(p) => out.violate("C10", "panic:clone", format!("{} at {}", p.message, p.location)),
             }
-        }
-
-        // ---- omim_diseases_by_name / omim_disease_by_name
-        let mut queries: Vec<String> = vec!["".into(), "syndrome".into(), "Syndrome".into(), "SYNDROME".into(), "type 1".into(), "type 11".into(), "é".into(), "zzz-absent".into(), " ".into(), "e 1".into()];
-        for r in &f.recs[1] {
-            queries.push(char_substring(&mut rng, &r.name));
-            queries.push(r.name.clone());
-            queries.push(format!("{}x", r.name));
-        }
-        for r in &f.recs[2] {
-            // names of ORPHA diseases must not match in the OMIM search unless an OMIM name contains them
-            queries.push(r.name.clone());
-        }
-        for q in &queries {
-            bump(&mut out.events, "Ontology::omim_diseases_by_name");
-            bump(&mut out.events, "Ontology::omim_disease_by_name");
-            out.bucket("name_queries");
-            let exp: BTreeSet<u32> = f.recs[1].iter().filter(|r| contains_naive(&r.name, q)).map(|r| r.id).collect();
-            let got_v: Vec<u32> = ont.omim_diseases_by_name(q).map(|d| d.id().as_u32()).collect();
-            let got: BTreeSet<u32> = got_v.iter().copied().collect();
-            out.check(got_v.len() == got.len(), "C10", "disease_search_duplicates", || format!("omim_diseases_by_name({q:?}) yields duplicates: {got_v:?}"));
-            out.check(got == exp, "C10", "disease_search_set", || {
-                format!("omim_diseases_by_name({q:?}) = {got:?}, diseases whose name contains the query = {exp:?}")
-            });
-            let one = ont.omim_disease_by_name(q).map(|d| d.id().as_u32());
-            out.check(
-                match one {
-                    Some(id) => exp.contains(&id),
-                    None => exp.is_empty(),
-                },
-                "C10",
-                "disease_search_first",
-                || format!("omim_disease_by_name({q:?}) = {one:?}, matching set = {exp:?}"),
-            );
         }
         out
     }
